@@ -90,7 +90,7 @@ KANI_META.update({
     'k_stat_monomorphic_2d': K('bounded', 'shapes [3,3], [2,4]; monomorphic cells over all f64 bit patterns', ['PiXY', 'King', 'R0', 'R1', 'Scs::segregating_sites']),
     'k_stat_s_sum_pixy_definition': K('bounded', 'shape [3,4], integer-valued cells', ['Spectrum::sum', 'Scs::segregating_sites', 'PiXY::from_spectrum']),
 })
-KANI_META.update(meta_for(SITE_NOPROJ, 'bounded', '3 input columns, 2 populations; column->population table and the results of two columns fixed per harness (in its name: table, symbolic column); the third column takes every genotype::Result incl. Error; pre-state: non-zero counts/totals and a stale skipped entry',
+KANI_META.update(meta_for(SITE_NOPROJ, 'bounded', '3 input columns, 2 populations; column->population table and the results of two columns fixed per harness (in its name: table, symbolic column); the third column takes every genotype::Result incl. Error; pre-state: non-zero counts/totals and either a stale skipped entry or an empty skipped list (the two kinds of reachable pre-state alternate over the family)',
                           ['site::Reader::read_site', 'site::Reader::reset', 'Count::set_zero']))
 KANI_META.update(meta_for(SITE_PROJDEC, 'bounded', 'as K-site no-projection, with a fixed projection target (in the name) and a dirty projection buffer: decision Standard / Projected / InsufficientData',
                           ['site::Reader::read_site (projection branch)', 'PartialProjection::project_unchecked']))
@@ -200,7 +200,7 @@ REGISTRY = {
         'level': 'model_checking',
         'verus': ['v_projiter'],
         'verus_pairs': {'v_projiter': ['k_site_projval_aab_to21']},
-        'kani_quick': ['k_site_noproj_aab_c2', 'k_site_projval_aab_to02', 'k_site_projdec_baa_c1_to02'],
+        'kani_quick': ['k_site_noproj_aab_c2', 'k_site_noproj_aab_c1', 'k_site_projval_aab_to02', 'k_site_projdec_aab_c2_to42', 'k_site_projdec_baa_c1_to02'],
         'assumptions': [A_SAMPLEMAP, A_PMF, 'history independence is shown by running read_site from an ARBITRARY pre-state of counts/totals/skipped list/projection buffer: every reachable state is an instance'],
         'not_decided': ['additivity / permutation of the running sum in Runner::run (bin crate)', 'floating-point summation order with projection'],
     },
